@@ -89,6 +89,7 @@ def gen_history(rng, u, nthreads=1, length=10, profile=None, pre=(), unw=()):
     b = u.b
     sim = Sim(b, pre)
     hist = []
+    poisoned = []        # wrapper roots that a panic during an exclusive hold has (probably) poisoned
     for t in range(nthreads):
         sim.key[t] = "free"
     for _ in range(length):
@@ -129,11 +130,15 @@ def gen_history(rng, u, nthreads=1, length=10, profile=None, pre=(), unw=()):
             sim.key[t] = "leaked"
         elif kind in ("acq", "acq_nokey"):
             cid = rng.choice(u.roots)
+            if poisoned and rng.random() < 0.5:
+                cid = rng.choice(poisoned)       # acquisitions of a poisoned wrapper, every flavour
             mode = "sh" if b.sharable[cid] and b.locks_of[cid] and rng.random() < 0.4 else "ex"
             if dict(b.defs)[cid][0] == "leaf" and b.kinds[b.leaf_of[cid]] == "M":
                 mode = "ex"
             av = sim.avail(cid, mode)
             fl = rng.choice(["guard", "try", "scoped", "scopedtry", "scoped", "guard"])
+            if cid in poisoned and rng.random() < 0.5:
+                fl = rng.choice(["try", "scopedtry"])
             if not av and fl in ("guard", "scoped") and rng.random() > pf["block"]:
                 fl = "try" if fl == "guard" else "scopedtry"
             if fl in ("guard", "try"):
@@ -146,6 +151,8 @@ def gen_history(rng, u, nthreads=1, length=10, profile=None, pre=(), unw=()):
                 lent = rng.random() < 0.5
                 bd = body(rng, b, cid, mode, pf["closure_panic"] > 0, pf["closure_panic"])
                 hist.append((t, ("acq", cid, mode, fl, lent, bd)))
+                if kind == "acq" and av and mode == "ex" and ("panic",) in bd and cid in u.poison_roots:
+                    poisoned.append(cid)
                 if kind == "acq" and av and not lent:
                     sim.key[t] = "free"
                 if kind == "acq" and (not av) and fl == "scoped":
@@ -183,6 +190,8 @@ def gen_history(rng, u, nthreads=1, length=10, profile=None, pre=(), unw=()):
             hist.append((t, ("panic",)))
             if st == "guard":
                 cid, mode = sim.guard[t]
+                if mode == "ex" and cid in u.poison_roots:
+                    poisoned.append(cid)
                 sim.release(t, cid, mode)
                 del sim.guard[t]
             if st in ("guard", "hand"):
